@@ -23,7 +23,7 @@ from ..oracle import c12_brute as ob
 
 RULES["C12"] = (
     "Pool mesh (tetra, box, octahedron, icosphere, non-convex prism, torus, uv-sphere, one or two disjoint bodies, optional "
-    "vertex jitter, optional removed faces for ray/nearest queries) under a similarity placement: scale 10^U(-2,3) with extra "
+    "vertex jitter, optional removed faces for ray/nearest queries, optionally 1..8 unreferenced vertices inserted at the start / middle / end of or spread over the vertex array, in and around the box and close to the surface: nearest.vertex is the minimum over all rows of mesh.vertices as documented, every other query must not notice them) under a similarity placement: scale 10^U(-2,3) with extra "
     "weight on both ends, rotation identity / exact quarter turn / random, offset 0 / ~10 / ~1e3 / 1e4..3e6 mesh scales (float64 tolerances carry 256*eps*|coords| / 64*eps*|coords| terms; embree is judged in its own shifted, scaled float32 scene). Rays by "
     "construction: target inside a face (barycentrics >= 0.05) or anywhere in the inflated box, origin >= 1e-3*diag from the "
     "surface inside the bounds / on a shell outside / 20..1000 diag away, direction target-origin (raw or unitized), exact "
@@ -108,6 +108,39 @@ class Geo:
             if keep.sum() >= 2:
                 F = F[keep]
         self.closed = not drop
+        self.n_extra = 0
+        extra = case.get("extra")
+        if extra:
+            # vertices no face refers to, at the start / in the middle / at the end of the vertex array (or spread):
+            # part of mesh.vertices (nearest.vertex documents "index of mesh.vertices"), not part of the surface
+            rs = np.random.RandomState(int(extra["seed"]) & 0x7FFFFFFF)
+            k = int(extra["k"])
+            ref = np.unique(F)
+            lo, hi = V[ref].min(axis=0), V[ref].max(axis=0)
+            A_, B_, C_ = ob.corners(V, F)
+            X = []
+            for _ in range(k):
+                if rs.uniform() < 0.5:
+                    X.append((lo + hi) / 2.0 + (rs.uniform(0, 1, 3) - 0.5) * (hi - lo) * rs.choice([1.0, 1.6, 4.0]))
+                else:
+                    f = int(rs.randint(len(F)))
+                    b = rs.dirichlet((1.0, 1.0, 1.0))
+                    nrm = np.cross(B_[f] - A_[f], C_[f] - A_[f])
+                    nrm /= np.linalg.norm(nrm)
+                    X.append(b[0] * A_[f] + b[1] * B_[f] + b[2] * C_[f] + nrm * np.linalg.norm(hi - lo) * 10.0 ** rs.uniform(-3.0, -0.5) * rs.choice([-1.0, 1.0]))
+            X = np.array(X)
+            nv = len(V)
+            where = extra["where"]
+            pos = {"start": np.zeros(k, dtype=np.int64), "end": np.full(k, nv, dtype=np.int64), "middle": np.full(k, nv // 2, dtype=np.int64)}.get(where)
+            if pos is None:
+                pos = np.sort(rs.randint(0, nv + 1, k))
+            V2 = np.insert(V, pos, X, axis=0)
+            newidx = np.arange(nv) + np.searchsorted(pos, np.arange(nv), side="right")
+            F = newidx[F]
+            if not np.array_equal(V2[newidx], V):
+                raise AssertionError("C12 harness: re-indexing after inserting unreferenced vertices is wrong")
+            V = np.ascontiguousarray(V2)
+            self.n_extra = k
         self.V, self.F = V, F
         self.A, self.B, self.C = ob.corners(V, F)
         ref = np.unique(F)
@@ -115,6 +148,9 @@ class Geo:
         self.hi = V[ref].max(axis=0)
         self.diag = float(np.linalg.norm(self.hi - self.lo))
         self.centre = (self.lo + self.hi) / 2.0
+        self.lo_all = V.min(axis=0)  # corner the embree wrapper shifts the scene to (min over ALL rows of mesh.vertices)
+        self.referenced = np.zeros(len(V), dtype=bool)
+        self.referenced[ref] = True
         self.cmax = float(np.abs(V).max())
         self.nh, self.a2, self.alt = ob.tri_geometry(self.A, self.B, self.C)
         self.mesh = trimesh.Trimesh(V.copy(), F.copy(), process=False)
@@ -464,6 +500,7 @@ def b_ray(case, ctx):
             if okind == "inbox" and k:
                 ctx.note(cls="origin:inbox_with_hit")
         engine = case["engine"]
+        ctx.note(cls="ray_mesh:" + ("with_unreferenced_vertices" if not g.referenced.all() else "all_referenced"))
         ctx.note(nontrivial=sum(nh) > 0, cls=[f"engine:{engine}", f"dir:{dirmode}", scale_class(g.diag), "place:" + case["place"]["rot"] + "/" + case["place"]["off"], "ray_offset:" + case["place"]["off"]])
         # hit points shared between different rays of this batch (the oracle's own points, 1e-7*diag apart)
         pts_r = [(r, O[r] + D[r] * t) for r in range(len(O)) for t, _ in info[r]["hits"]]
@@ -480,7 +517,7 @@ def b_ray(case, ctx):
             first["native"] = check_engine("native", eng, g, O, D, info, dirmode, np.ones(len(O), dtype=bool))
         if engine in ("embree", "both") and HAVE_EMBREE:
             # float32 scene: only rays whose clearance from every edge is above the float32 uncertainty
-            dist_o = np.abs(O - g.lo).max(axis=1)
+            dist_o = np.abs(O - g.lo_all).max(axis=1)
             ok = np.array([info[i]["clear"] >= F32K * (dist_o[i] + g.diag) for i in range(len(O))])
             for i in range(len(O)):
                 ctx.note(cls="embree_ray:" + ("asked" if ok[i] else "skipped_float32_clearance"))
@@ -631,6 +668,7 @@ def b_contains(case, ctx):
         engine = case["engine"]
         for i in range(n):
             ctx.note(cls=["cpoint_kept", "cpoint:" + labels[i], "cloc:" + ("inside" if inside[i] else "outside_in_box" if inbox[i] else "outside_box"), "cpoint_rays:" + ("gp" if gp[i] else "nongp")])
+        ctx.note(cls="contains_mesh:" + ("with_unreferenced_vertices" if not g.referenced.all() else "all_referenced"))
         ctx.note(nontrivial=True, cls=[f"contains_engine:{engine}", scale_class(g.diag), "contains_offset:" + case["place"]["off"]])
         if engine == "native":
             eng = ray_triangle.RayMeshIntersector(g.mesh)
@@ -639,7 +677,7 @@ def b_contains(case, ctx):
             if not HAVE_EMBREE:
                 return
             eng = ray_pyembree.RayMeshIntersector(g.mesh)
-            ok = clr >= F32K * (np.abs(P - g.lo).max(axis=1) + g.diag)
+            ok = clr >= F32K * (np.abs(P - g.lo_all).max(axis=1) + g.diag)
             sel = np.nonzero(ok | ~inbox)[0]
             if len(sel) == 0:
                 return
@@ -701,6 +739,7 @@ def b_prox(case, ctx):
         P = np.array(P)
         n = len(P)
         m = g.mesh
+        ctx.note(cls="prox_vertices:" + ("with_unreferenced" if not g.referenced.all() else "all_referenced"))
         ctx.note(nontrivial=True, cls=[scale_class(g.diag), "prox_mesh:" + ("closed" if g.closed else "open"), "prox_offset:" + case["place"]["off"]])
         for i in range(n):
             ctx.note(cls=["ppoint_kept", "ppoint:" + labels[i], "closest_feature:" + {"f": "face", "e": "edge", "v": "vertex"}[ref[i][3]]])
@@ -711,11 +750,14 @@ def b_prox(case, ctx):
         iv = np.asarray(iv)
         check(dv.shape == (n,) and iv.shape == (n,), "C12.prox|vertex|shape", f"{dv.shape} {iv.shape}")
         for i in range(n):
-            dd = np.linalg.norm(g.V - P[i], axis=1)
+            dd = np.linalg.norm(g.V - P[i], axis=1)  # ALL rows of mesh.vertices: "vertex_id: index of mesh.vertices", kdtree "contains mesh.vertices"
+            if not g.referenced.all():
+                ctx.note(cls="nearest_vertex:" + ("unreferenced" if not g.referenced[int(dd.argmin())] else "referenced_in_mesh_with_unreferenced"))
             tol = 1e-9 * dd.min() + 64 * EPS * (g.cmax + np.abs(P[i]).max())
-            check(0 <= int(iv[i]) < len(g.V), "C12.prox|vertex|index_range", str(int(iv[i])))
-            check(abs(dd[int(iv[i])] - dd.min()) <= tol, "C12.prox|vertex|not_nearest", f"point {P[i].tolist()}: vertex {int(iv[i])} at {dd[int(iv[i])]}, nearest {int(dd.argmin())} at {dd.min()}")
-            check(abs(dv[i] - dd.min()) <= tol, "C12.prox|vertex|distance", f"point {P[i].tolist()}: {dv[i]} vs {dd.min()}")
+            vcls = "" if g.referenced.all() else "|mesh_with_unreferenced_vertices"
+            check(0 <= int(iv[i]) < len(g.V), "C12.prox|vertex|index_range" + vcls, str(int(iv[i])))
+            check(abs(dd[int(iv[i])] - dd.min()) <= tol, "C12.prox|vertex|not_nearest" + vcls, f"point {P[i].tolist()}: vertex {int(iv[i])} at {dd[int(iv[i])]}, nearest {int(dd.argmin())} at {dd.min()}")
+            check(abs(dv[i] - dd.min()) <= tol, "C12.prox|vertex|distance" + vcls, f"point {P[i].tolist()}: {dv[i]} vs {dd.min()}")
 
         # ---- nearest.on_surface
         cl, dist, tid = m.nearest.on_surface(P.copy())
@@ -788,6 +830,8 @@ def base_case(draw, allow_drop=True, nmax=16):
     case = {"mesh": spec, "place": draw(place_st()), "seed": draw(st.integers(0, 2**31 - 1)), "n": draw(st.integers(1, nmax))}
     if allow_drop and draw(st.integers(0, 4)) == 0:
         case["drop"] = draw(st.lists(st.integers(0, 400), min_size=1, max_size=4))
+    if draw(st.integers(0, 2)) == 0:
+        case["extra"] = {"seed": draw(st.integers(0, 2**31 - 1)), "k": draw(st.integers(1, 8)), "where": draw(st.sampled_from(["start", "middle", "end", "spread"]))}
     return case
 
 
@@ -870,6 +914,11 @@ REQUIRED_CLASSES["C12"] = [
     "batch:hit_point_shared_by_two_rays",
     "cpoint:on_test_line",
     "ray_offset:vfar",
+    "ray_mesh:with_unreferenced_vertices",
+    "contains_mesh:with_unreferenced_vertices",
+    "prox_vertices:with_unreferenced",
+    "nearest_vertex:unreferenced",
+    "nearest_vertex:referenced_in_mesh_with_unreferenced",
     "contains_offset:vfar",
     "prox_offset:vfar",
 ]
